@@ -74,7 +74,13 @@ func scripted() [][]step {
 		[]step{{Op: "sync"}}, round,
 		blk, []step{{Op: "poll", M: "m1"}, {Op: "poll", M: "m2"}, {Op: "poll", M: "m3", RView: "none"}, {Op: "poll", M: "m4", View: "lag"}},
 		round, []step{{Op: "sync"}}, rep(5, round))
-	return [][]step{happy, stale, faults, slow, restart, lagging}
+	// 7. a sharder that is one block behind serves m2 an incomplete list of key vectors in the share phase (m3's
+	//    is missing): m2 computes no share for m3 and cannot validate m3's; m3 reveals its share for m2; in the
+	//    wait phase m2 meets a revealed share of a miner it has no key vector of
+	partial := cat(all, blk, polls("m1", "m2", "m4"), blk, []step{{Op: "sync"}}, polls("m3"), blk,
+		[]step{{Op: "poll", M: "m1"}, {Op: "poll", M: "m2", RView: "lag"}, {Op: "poll", M: "m3"}, {Op: "poll", M: "m4"}},
+		rep(7, round))
+	return [][]step{happy, stale, faults, slow, restart, lagging, partial}
 }
 
 // randomScenario: blocks, each followed by polls of a random subset of the miners with occasional faults.
